@@ -61,6 +61,12 @@ type Contract struct {
 	Line int
 }
 
+type FieldRange struct {
+	Lo, Hi string
+	File   string
+	Line   int
+}
+
 type specParam struct {
 	Name string
 	Type string
@@ -364,6 +370,34 @@ func (w *World) parseBlocks(ls []rawLine, pkgPath string) error {
 					return fail("duplicate stub for %s", rest)
 				}
 				w.Stubs[rest] = cur
+			case "fieldinv":
+				// fieldinv Type.Field range <lo> <hi> property C1, C2   (proved at every store, then available as a heap invariant)
+				f := strings.Fields(rest)
+				if len(f) < 4 || f[1] != "range" {
+					return fail("expected: fieldinv Type.Field range <lo> <hi> [property ids]")
+				}
+				fi := &FieldInv{PkgPath: pkgPath, Lo: f[2], Hi: f[3], File: l.file, Line: l.line}
+				tn, fn, ok := strings.Cut(f[0], ".")
+				if !ok {
+					return fail("fieldinv needs Type.Field")
+				}
+				fi.Type, fi.Field = tn, fn
+				if len(f) > 5 && f[4] == "property" {
+					for _, p := range strings.Split(strings.Join(f[5:], " "), ",") {
+						fi.Props = append(fi.Props, strings.TrimSpace(p))
+					}
+				}
+				w.FieldInvs = append(w.FieldInvs, fi)
+			case "field":
+				// field <struct type key>.<Field> range <lo> <hi>
+				f := strings.Fields(rest)
+				if len(f) != 4 || f[1] != "range" {
+					return fail("expected: field <type>.<Field> range <lo> <hi>")
+				}
+				if w.FieldRanges == nil {
+					w.FieldRanges = map[string]FieldRange{}
+				}
+				w.FieldRanges[f[0]] = FieldRange{Lo: f[2], Hi: f[3], File: l.file, Line: l.line}
 			case "spec":
 				name, params, result, body, err := parseSig(rest)
 				if err != nil {
@@ -661,4 +695,15 @@ func contains(xs []string, x string) bool {
 		}
 	}
 	return false
+}
+
+// FieldInv is a range invariant of a struct field of the module, proved at every store.
+type FieldInv struct {
+	PkgPath string
+	Type    string
+	Field   string
+	Lo, Hi  string
+	Props   []string
+	File    string
+	Line    int
 }
